@@ -35,7 +35,7 @@ func (d epDef) LexBytes(filename string, b []byte) (lexer.Lexer, error) {
 
 func TestVerif_C15C18_EntryPoints(t *testing.T) {
 	res := &xResult{Check: "entry points", Property: "C15 C18", Exhaustive: false,
-		Bound: "3 lexer definitions (stateful, text/scanner, one offering Lex / LexString / LexBytes) x {no mapper, Upper + Unquote mappers} x 9 inputs (valid, lexing error, parse error, leading byte order mark, empty) x 8 entry points (ParseString, ParseBytes, Parse from strings.Reader, one-byte reader, data-with-EOF reader, section reader, ParseFromLexer over the parser's own lexer, Trace on)",
+		Bound: "3 lexer definitions (stateful, text/scanner, one offering Lex / LexString / LexBytes) x {no mapper, Upper + Unquote mappers} x 9 inputs (valid, lexing error, parse error, leading byte order mark, empty) x 8 entry points (ParseString, ParseBytes, Parse from strings.Reader, one-byte reader, data-with-EOF reader, section reader, ParseFromLexer over the parser's own lexer, Trace on); AllowTrailing and Trace also through ParseBytes and Parse",
 		Rule: "(definition, mappers, input) triples; all non-trivial"}
 	stateful := lexer.MustSimple([]lexer.SimpleRule{{Name: "Ident", Pattern: `[a-zA-Z_]\w*`}, {Name: "Int", Pattern: `\d+`}, {Name: "String", Pattern: `"(\\.|[^"\\])*"`},
 		{Name: "Punct", Pattern: `[=;]`}, {Name: "Whitespace", Pattern: `\s+`}})
@@ -98,6 +98,22 @@ func TestVerif_C15C18_EntryPoints(t *testing.T) {
 								res.violate("%s: Upgrade over the parser's lexer fails (%v) although ParseString succeeds", desc, uerr)
 							}
 						}
+					}
+					// the same with options: every entry point hands them on
+					wantT := render(p.ParseString("f", in+" zz", participle.AllowTrailing(true)))
+					for name, g := range map[string]string{
+						"ParseBytes with AllowTrailing": render(p.ParseBytes("f", []byte(in+" zz"), participle.AllowTrailing(true))),
+						"Parse with AllowTrailing":      render(p.Parse("f", strings.NewReader(in+" zz"), participle.AllowTrailing(true))),
+					} {
+						if g != wantT {
+							res.violate("%s followed by \" zz\": %s gives %s, ParseString with AllowTrailing gives %s", desc, name, g, wantT)
+						}
+					}
+					var tb, ts bytes.Buffer
+					_, _ = p.ParseString("f", in, participle.Trace(&ts))
+					_, _ = p.ParseBytes("f", []byte(in), participle.Trace(&tb))
+					if tb.String() != ts.String() {
+						res.violate("%s: ParseBytes with Trace writes %d bytes of trace, ParseString %d", desc, tb.Len(), ts.Len())
 					}
 					for name, g := range got {
 						if g != want {
